@@ -89,6 +89,38 @@ def canon_padded(res):
     return out
 
 
+def cache_view(res):
+    """what `Result.__init__` derives from the tables: the three caches (id -> row of to_dicts()) and every learner's `full_name`;
+    `strs` = Python's str() of every cell of the learner row (Missing included), used to render the model's ingredients"""
+    out = {"problems": [], "lrn": []}
+    for name, tbl, idcol, cache in (("env", res.environments, "environment_id", res._env_cache), ("lrn", res.learners, "learner_id", res._lrn_cache),
+                                    ("val", res.evaluators, "evaluator_id", res._val_cache)):
+        rows = list(tbl.to_dicts())
+        ids = [r[idcol] for r in rows]
+        if list(cache.keys()) != ids:
+            out["problems"].append(("keys:" + name, "_%s_cache has keys %s, the table has ids %s" % (name, list(cache.keys()), ids)))
+            continue
+        for r in rows:
+            c = {k: v for k, v in cache[r[idcol]].items() if not (name == "lrn" and k == "full_name")}
+            if canon_row(c) != canon_row(r) or list(c.keys()) != list(r.keys()):
+                out["problems"].append(("row:" + name, "_%s_cache[%r] is %s, the table row is %s" % (name, r[idcol], json.dumps(canon_row(c))[:150], json.dumps(canon_row(r))[:150])))
+            if name == "lrn":
+                out["lrn"].append({"id": canon_val(r[idcol]), "full_name": cache[r[idcol]].get("full_name"), "strs": {k: str(v) for k, v in r.items()},
+                                   "missing": [k for k, v in r.items() if type(v).__name__ == "MissingType"]})
+    return out
+
+
+def render_full_name(entry, m):
+    """the text `Result.__init__` builds from the ingredients the Lean model selected (`fullNameOf`), with Python's str() of the real cells"""
+    st = entry["strs"]
+    lrn_id = st["learner_id"]
+    family = lrn_id if m["family"] == "no-column" else st["family"]
+    if m["vw"]:
+        return "%s. %s(%s, seed=%s)" % (lrn_id, family, st["args"], st["seed"])
+    params = ["%s=%s" % (k, st[k]) for k in (unlean_str(k) for k in m["keys"])]
+    return "%s. %s%s" % (lrn_id, family, "(%s)" % ", ".join(params) if params else "")
+
+
 def index_checks(res):
     """queries that rely on the tables being sorted/indexed as declared: every parameter table ascending by id, `where(id=k)` returns exactly
     the row with that id, the interactions of a triple are found through the index, filter_env / where_fin leave consistent tables.
@@ -200,8 +232,13 @@ def run_route(case, path):
     ab = abort_of(case)
 
     def set_poison(on):
+        pk = param_key_comp(case)
+        for kind, objs in (("env", envs), ("lrn", lrns), ("val", vals)):
+            for i, o in enumerate(objs):
+                if hasattr(o, "poison_params"):
+                    o.poison_params = bool(on and pk == (kind, i))
         for i, v in enumerate(vals):
-            v.poison = {(ab["tri"][0], ab["tri"][1]): (ab["kind"], ab.get("row", 0))} if (on and ab and ab["tri"][2] == i) else {}
+            v.poison = {(ab["tri"][0], ab["tri"][1]): (ab["kind"], ab.get("row", 0))} if (on and ab and not pk and ab["tri"][2] == i) else {}
 
     with _Ctx() as ctx:
         try:
@@ -230,6 +267,10 @@ def run_route(case, path):
             if path is not None and dup_ops(case):
                 dup_file(case, path)
                 res = Experiment(eval_tuples=triples, description=case.get("desc")).run(path, processes=1, seed=case.get("seed", 1))
+            if path is not None and case.get("torn"):
+                # round h: killed while writing the last record (possibly longer than 64 KiB); the same experiment is run again on that file
+                case["_torn_seen"] = tear_file(case, path)
+                res = Experiment(eval_tuples=triples, description=case.get("desc")).run(path, processes=1, seed=case.get("seed", 1))
             if path is not None and case.get("shuffle") is not None:
                 # the records reached the log in another order (several worker processes): same records, permuted; then a restored run on it
                 shuffle_file(case, path)
@@ -250,6 +291,18 @@ def abort_of(case):
     if list(ab["tri"]) not in tris or list(ab["tri"]) in [list(t) for t in case.get("fail", [])]:
         return None
     return ab
+
+
+def param_key_comp(case):
+    """abort kinds `param-key:env|lrn|val`: the component of the abort triple whose params dictionary gets a tuple key (json cannot write it: the run
+    stops at that component's record).  Only for components with own params; -> (kind, index) or None"""
+    ab = abort_of(case)
+    if not ab or not str(ab.get("kind", "")).startswith("param-key:"):
+        return None
+    kind = ab["kind"].split(":")[1]
+    i = ab["tri"][{"env": 0, "lrn": 1, "val": 2}[kind]]
+    comp = case[{"env": "envs", "lrn": "lrns", "val": "vals"}[kind]][i]
+    return (kind, i) if comp.get("params") is not None else None
 
 
 def called_triples(calls):
@@ -356,6 +409,26 @@ def decoy_case(case):
     return c
 
 
+def tear_file(case, path):
+    """round h: the run was killed while (or just after) writing its LAST record: cut `torn["cut"]` bytes off the end of the file (1 = only the final newline is
+    missing: a complete but unterminated record).  -> (length of the last record incl. newline, bytes of it left on disk)"""
+    if is_gzip_name(path):
+        # coba writes one gzip member per record: a killed run leaves a torn last MEMBER, so the raw bytes are cut
+        with open(path, "rb") as f:
+            raw = f.read()
+        cut = max(1, min(int(case["torn"]["cut"]), len(raw) // 4))
+        with open(path, "wb") as f:
+            f.write(raw[:len(raw) - cut])
+        return 0, 0
+    with open(path, "rb") as f:
+        data = f.read()
+    start = data.rfind(b"\n", 0, len(data) - 1) + 1
+    cut = min(int(case["torn"]["cut"]), len(data) - start - 1)
+    with open(path, "wb") as f:
+        f.write(data[:len(data) - cut])
+    return len(data) - start, len(data) - start - cut
+
+
 def shuffle_file(case, path):
     """rewrite the result file with its E/L/V/I records permuted (version and experiment lines stay in front).
     shuffle = -1: every kind in descending id order; otherwise the permutation of Rng(shuffle)"""
@@ -395,6 +468,7 @@ def run_impl(case):
         except Exception as ex:
             logs["index"][route] = [("raised", "an indexed query on the Result of route %s raised %s: %s" % (route, type(ex).__name__, str(ex)[:200]))]
     idx("nofile", r1)
+    logs["padded_all"] = {"nofile": canon_padded(r1) if r1 is not None else None}
     d = tempfile.mkdtemp(prefix="c07_")
     try:
         sub, base = FNAME_SHAPES[fname_shape(case)]
@@ -416,11 +490,24 @@ def run_impl(case):
         out["file"] = canon_result(r2) if r2 is not None else {"raised": x2}
         logs["file"] = m2
         logs["padded"] = canon_padded(r2) if r2 is not None else None
+        logs["padded_all"]["file"] = logs["padded"]
+        logs["cache"] = {}
+        for route, rr in (("nofile", r1), ("file", r2)):
+            if rr is not None:
+                try:
+                    logs["cache"][route] = cache_view(rr)
+                except Exception as ex:
+                    logs["cache"][route] = {"problems": [("raised", "reading the caches of route %s raised %s: %s" % (route, type(ex).__name__, str(ex)[:150]))], "lrn": []}
         idx("file", r2)
         try:
             with _Ctx():
                 r3 = Result.from_file(path)
             out["from_file"] = canon_result(r3)
+            logs["padded_all"]["from_file"] = canon_padded(r3)
+            try:
+                logs["cache"]["from_file"] = cache_view(r3)
+            except Exception as ex:
+                logs["cache"]["from_file"] = {"problems": [("raised", "reading the caches of route from_file raised %s: %s" % (type(ex).__name__, str(ex)[:150]))], "lrn": []}
             idx("from_file", r3)
         except Exception as ex:
             out["from_file"] = {"raised": type(ex).__name__}
@@ -508,7 +595,8 @@ def abort_view(case, impl, logs):
         return None
     fail = set(map(tuple, case.get("fail", [])))
     called = set(map(tuple, (logs.get("calls") or {}).get("file") or []))
-    done = [tuple(t) for t in case["triples"] if tuple(t) in called and tuple(t) not in fail and tuple(t) != tuple(ab["tri"])]
+    stopper = None if str(ab.get("kind", "")).startswith("param-key:") else tuple(ab["tri"])     # a params record stops the run between evaluations
+    done = [tuple(t) for t in case["triples"] if tuple(t) in called and tuple(t) not in fail and tuple(t) != stopper]
     ids = {}
     res = impl.get("file") or {}
     for tbl, idcol in (("envs", "environment_id"), ("lrns", "learner_id"), ("vals", "evaluator_id")):
@@ -1136,6 +1224,15 @@ def gen_params(rng, kind):
         out.append([k, gen_val(rng, 2)])
     if rng.chance(0.12) and kind in ("env", "lrn") and TYPEKEY[kind] not in used:
         out.append([S(TYPEKEY[kind]), S(rng.choice(["custom", "é", "Lrn"]))])
+    elif rng.chance(0.15) and kind == "lrn" and "family" not in used:
+        # phase 5: the `vw` form of full_name needs family == 'vw' and both args and seed
+        out.append([S("family"), S(rng.choice(["vw", "vw", "VW"]))])
+        for k in ("args", "seed"):
+            if k not in used and rng.chance(0.7):
+                used.add(k)
+                out.append([S(k), S("--cb_explore 2") if k == "args" else ["i", rng.randint(0, 9)]])
+    if rng.chance(0.05) and kind == "lrn" and "" not in used:
+        out.append([S(""), ["i", 1]])       # a falsy field name is left out of full_name
     return ["d", out]
 
 
@@ -1172,6 +1269,11 @@ def gen_rows(rng, prone, tags):
     keys = [["s", s] for s in rng.sample(pool, rng.choice([1, 2, 2, 3, 4]))]
     if rng.chance(0.3):
         keys += rng.sample(nonstr, rng.choice([1, 1, 2]))
+    if rng.chance(0.08):
+        # phase 5: fields named like the columns TransactionResult writes itself (overwritten by the id columns; (B) does not speak about them)
+        keys += [["s", s] for s in rng.sample(list(ID_COLS), rng.choice([1, 1, 2]))]
+        if rng.chance(0.3):
+            keys = [k for k in keys if isinstance(k, list) and k[0] == "s" and k[1] in ID_COLS]       # rows with reserved names only
     if prone and rng.chance(0.25):
         keys += [["i", 3], ["s", "3"]] if rng.chance(0.6) else [True, ["s", "True"]]
     cols = {}
@@ -1449,6 +1551,10 @@ C07_DEFAULTS = {
     "paramCols": ["environment_id", "learner_id", "evaluator_id"],
     "idAssigned": ["environment_id", "learner_id", "evaluator_id", "index"], "indexFrom": 1,
     "precision": 5, "seqToList": ["tuple"],
+    "encShapes": [["T0", "experiment", ["item[1]"]], ["T1", "E", ["item[1]", "item[2]"]], ["T2", "L", ["item[1]", "item[2]"]],
+                  ["T3", "V", ["item[1]", "item[2]"]], ["T4", "I", ["item[1]", "packed"]]],
+    "resShapes": [["experiment", "exp_dict", ["trx[1]"]], ["E", "env_rows", ["trx[1]", "trx[2]"]], ["L", "lrn_rows", ["trx[1]", "trx[2]"]],
+                  ["V", "val_rows", ["trx[1]", "trx[2]"]], ["I", "int_rows", ["trx[1]", "trx[2]"]]],
 }
 
 
@@ -1561,6 +1667,60 @@ def c07_extract(repo):
                 out.append(const(n.test.comparators[0]))
         return out or None
 
+    def sub_name(n, base):
+        """`base[k]` with a literal k -> 'base[k]'"""
+        if isinstance(n, ast.Subscript) and getattr(n.value, "id", None) == base and isinstance(n.slice, ast.Constant):
+            return "%s[%r]" % (base, n.slice.value)
+        return None
+
+    def enc_shapes():
+        # if item[0] == "Tk": … yield encoder([tag, e1, e2]) -> [Tk, tag, [e1, e2]]; an element is `item[k]` or the name of a local (`packed`)
+        out = []
+        for n in ast.walk(enc()):
+            if isinstance(n, ast.If) and isinstance(n.test, ast.Compare) and len(n.test.ops) == 1 and isinstance(n.test.ops[0], ast.Eq) \
+                    and isinstance(n.test.left, ast.Subscript) and getattr(n.test.left.value, "id", None) == "item":
+                t = const(n.test.comparators[0])
+                shape = None
+                for m in n.body:
+                    for c in ast.walk(m):
+                        if isinstance(c, ast.Call) and getattr(c.func, "id", None) == "encoder" and c.args and isinstance(c.args[0], ast.List):
+                            el = c.args[0].elts
+                            shape = [t, const(el[0]), [sub_name(e, "item") or (e.id if isinstance(e, ast.Name) else ast.unparse(e)) for e in el[1:]]]
+                if shape is None:
+                    return None
+                out.append(shape)
+        return sorted(out) or None
+
+    def res_shapes():
+        # if trx[0] == tag: <store>  -> [tag, variable stored into, [trx[k] read by that statement]]; stores: `v = trx[1]`, `v[trx[1]].update(f(trx[2]))`,
+        # `v[tuple(trx[1])] = trx[2]` (statements that only rewrite `trx` itself are skipped)
+        out = []
+        for n in ast.walk(res()):
+            if isinstance(n, ast.If) and isinstance(n.test, ast.Compare) and isinstance(n.test.ops[0], ast.Eq) and isinstance(n.test.left, ast.Subscript) \
+                    and getattr(n.test.left.value, "id", None) == "trx" and isinstance(n.test.left.slice, ast.Constant) and n.test.left.slice.value == 0:
+                tag = const(n.test.comparators[0])
+                shape = None
+                for m in n.body:
+                    target, keyx, valx = None, [], []
+                    if isinstance(m, ast.Assign):
+                        tg = m.targets[0]
+                        if isinstance(tg, ast.Name):
+                            target, valx = tg.id, [m.value]
+                        elif isinstance(tg, ast.Subscript) and isinstance(tg.value, ast.Name):
+                            target, keyx, valx = tg.value.id, [tg.slice], [m.value]
+                    elif isinstance(m, ast.Expr) and isinstance(m.value, ast.Call) and isinstance(m.value.func, ast.Attribute) and m.value.func.attr == "update" \
+                            and isinstance(m.value.func.value, ast.Subscript) and isinstance(m.value.func.value.value, ast.Name):
+                        target, keyx, valx = m.value.func.value.value.id, [m.value.func.value.slice], list(m.value.args)
+                    if target is None or target == "trx":
+                        continue
+                    subs = lambda xs: sorted({sub_name(c, "trx") for x in xs for c in ast.walk(x) if sub_name(c, "trx") and sub_name(c, "trx") != "trx[0]"})
+                    used = subs(keyx) + subs(valx)       # first what the record is stored under, then what is stored
+                    shape = [tag, target, used]
+                if shape is None:
+                    return None
+                out.append(shape)
+        return out or None
+
     def exempt_cols():
         for n in ast.walk(res()):
             if isinstance(n, ast.FunctionDef) and n.name == "packed_list2tuple":
@@ -1639,6 +1799,8 @@ def c07_extract(repo):
     attempt("resVersion", res_version)
     attempt("encTags", enc_tags)
     attempt("resTags", res_tags)
+    attempt("encShapes", enc_shapes)
+    attempt("resShapes", res_shapes)
     attempt("packedKey", lambda: enc_packed_key() if enc_packed_key() == res_packed_key() else None)
     attempt("countKey", lambda: enc_count_key() if enc_count_key() == res_count_key() else None)
     attempt("encKeyIsStr", enc_key_is_str)
@@ -1675,6 +1837,10 @@ def c07_render(vals, missing):
          "/-- `packed[name] = …` assignments in source order (the id columns overwrite same-named fields) -/", "def idAssigned : List String := " + _lean_strs(vals["idAssigned"]),
          "/-- `list(range(k,N+k))`: first index -/", "def indexFrom : Int := %d" % vals["indexFrom"],
          "/-- default `precision` of `minimize` (`P = 10**precision`), which the encoder uses -/", "def precision : Nat := %d" % vals["precision"],
+         "/-- [phase 5] `TransactionEncode`: transaction tag -> (record tag, the elements handed to `encoder` after it) -/",
+         "def encShapes : List (String × String × List String) := [" + ", ".join("(%s, %s, %s)" % (_lean_str(a), _lean_str(b), _lean_strs(c)) for a, b, c in vals["encShapes"]) + "]",
+         "/-- [phase 5] `TransactionResult`: record tag -> (variable the record is stored into, the `trx[k]` it reads) -/",
+         "def resShapes : List (String × String × List String) := [" + ", ".join("(%s, %s, %s)" % (_lean_str(a), _lean_str(b), _lean_strs(c)) for a, b, c in vals["resShapes"]) + "]",
          "/-- names that could NOT be read off the source (code reshaped): their definitions above are the model's own values -/",
          "def notExtracted : List String := " + _lean_strs(missing),
          "end Coba.Generated.C07", ""]
@@ -1780,7 +1946,7 @@ class C07(Property):
         if rng.chance(0.2):
             case["fail"] = rng.sample(triples, 1)
         case["decoy"] = rng.chance(0.3)
-        mode = rng.wchoice([(17, "fresh"), (22, "two"), (23, "punch"), (14, "shuffle"), (14, "dup"), (10, "abort")])
+        mode = rng.wchoice([(17, "fresh"), (22, "two"), (23, "punch"), (14, "shuffle"), (14, "dup"), (12, "abort")])
         if mode == "abort":
             # the run stops in the middle: the evaluation of one triple yields a cell that cannot be written (set / plain object) or is interrupted;
             # mostly after other evaluations were completed.  30 %: a complete second run on the same file follows.
@@ -1789,6 +1955,11 @@ class C07(Property):
                 later = [t for t in cands if triples.index(t) >= 1]
                 tri = rng.choice(later if later and rng.chance(0.85) else cands)
                 case["abort"] = {"tri": tri, "kind": rng.wchoice([(5, "set"), (3, "object"), (2, "interrupt")]), "row": rng.randint(0, 3), "repair": rng.chance(0.3)}
+                if rng.chance(0.5):
+                    # phase 5: tuple keys — in a nested dictionary of a cell, or in the params of one of the triple's components
+                    case["abort"]["kind"] = rng.wchoice([(3, "tuplekey"), (3, "param-key:env"), (2, "param-key:lrn"), (2, "param-key:val")])
+                    if case["abort"]["kind"].startswith("param-key:") and param_key_comp(case) is None:
+                        case["abort"]["kind"] = "tuplekey"
         if mode == "dup":
             # the log holds two records for some ids: a copy of another triple's / component's record is appended
             ops = []
@@ -1888,6 +2059,27 @@ class C07(Property):
             for kind, tri, repair in (("set", [3, 0, 0], False), ("set", [3, 1, 0], True), ("object", [1, 1, 0], False), ("interrupt", [2, 0, 0], False), ("interrupt", [3, 1, 0], True), ("set", [0, 0, 0], False)):
                 cs.append(dict(json.loads(json.dumps(g4)), fname=shape, gz=(shape == "gz"), abort={"tri": tri, "kind": kind, "row": 1, "repair": repair}))
         cs.append(base([D((S("a"), I(1)))], abort={"tri": [0, 0, 0], "kind": "set", "row": 0, "repair": False}, vals=[{"params": D(), "lazy": False}]))
+        # phase 5: tuple keys (nested in a cell / in a component's params) stop the run at that record; fields named like the id columns are overwritten
+        for kind, tri, repair in (("tuplekey", [2, 1, 0], False), ("tuplekey", [1, 0, 0], True), ("param-key:env", [2, 0, 0], False), ("param-key:env", [3, 0, 0], True),
+                                  ("param-key:lrn", [0, 1, 0], False), ("param-key:lrn", [0, 1, 0], True), ("param-key:val", [0, 0, 0], False), ("param-key:val", [0, 0, 0], True)):
+            cs.append(dict(json.loads(json.dumps(g4)), fname="gz" if repair else "plain", gz=repair, abort={"tri": tri, "kind": kind, "row": 1, "repair": repair}))
+        cs.append(base([D((S("index"), I(7)), (S("a"), T(I(1)))), D((S("environment_id"), L(I(5))), (S("a"), None)), D((S("evaluator_id"), S("x")), (S("learner_id"), ["f", "0.123456789"]))]))
+        cs.append(base([D((S("index"), I(7))), D((S("index"), L(I(1), I(2))))], phases=2))
+        cs.append(base([D((S("learner_id"), None)), D()], fname="gz", gz=True, shuffle=-1))
+        # round h m2: a restored run on a PLAIN file whose last record is longer than 64 KiB and torn / unterminated (killed while writing the rows of the last
+        # evaluation): the restored run and Result.from_file must give the uninterrupted Result.  Record sizes ~75 KiB and ~210 KiB; cut = bytes missing at the end
+        def fat_rows(n):
+            return [D((S("reward"), ["f", repr((j % 7) / 4)]), (S("note"), S(("row %d of the only learner; " % j) * 12)), (S("ctx"), L(I(j), I((j + 1) % 5)))) for j in range(n)]
+        for n, cut in ((240, 1), (240, 1000), (240, 70000), (660, 1), (660, 100000), (660, 30000)):
+            cs.append(base(fat_rows(n), torn={"cut": cut}, fname="plain", gz=False, vals=[{"params": D((S("kind"), S("long"))), "lazy": cut != 1}]))
+        cs.append(base(fat_rows(240), torn={"cut": 1000}, fname="gz", gz=True))        # control: gzip files take the other path of _drop_torn_tail
+        # phase 5: `Result.__init__`: full_name forms (vw with args+seed, vw without seed, a falsy field name, fields other learners lack)
+        vw = base([D((S("reward"), ["f", "0.5"]))])
+        vw.update({"lrns": [{"params": D((S("family"), S("vw")), (S("args"), S("--cb_explore 2")), (S("seed"), I(3)), (S("z"), T(I(1))))},
+                            {"params": D((S("family"), S("vw")), (S("args"), S("--cb 2")))}, {"params": D((S(""), I(1)), (S("x"), ["f", "0.123456789"]), (S("b"), None))}],
+                   "triples": [[0, l, 0] for l in range(3)], "rows": [[[0, l, 0], [D((S("reward"), ["f", "0.5"]))]] for l in range(3)]})
+        cs.append(vw)
+        cs.append(dict(json.loads(json.dumps(vw)), fname="gz", gz=True, shuffle=-1))
         # the same path held another experiment's log of the same byte length before (m3)
         for shape in ("plain", "gz"):
             cs.append(base([D((S("reward"), ["f", "0.25"])), D((S("reward"), ["f", "0.5"]))], lrns=[{"params": D((S("family"), S("eps")), (S("epsilon"), ["f", "0.2"]))}],
@@ -1967,6 +2159,26 @@ class C07(Property):
         for route, probs in sorted((logs.get("index") or {}).items()):
             for sfx, text in probs[:3]:
                 fails.append(F("B", "route %s: %s" % (route, text), "index:" + sfx))
+        # (B) phase 5: "the Result with a file, without a file and from_file are identical" also for what `Table` exposes beyond the rows:
+        # column order and Missing-vs-None cells of all four tables (for restored / punched / permuted logs this is order independence)
+        pa = logs.get("padded_all") or {}
+        if all(pa.get(r) is not None for r in ("nofile", "file", "from_file")):
+            for a, b in (("nofile", "file"), ("file", "from_file")):
+                for name, ta, tb in zip(("envs", "lrns", "vals", "ints"), pa[a], pa[b]):
+                    if ta["columns"] != tb["columns"]:
+                        fails.append(F("B", "Table.columns of %s: route %s has %s, route %s has %s" % (name, a, json.dumps(ta["columns"]), b, json.dumps(tb["columns"])),
+                                       "routes-differ:padded:columns:" + name))
+                    elif [[c == ["M"] for c in r] for r in ta["rows"]] != [[c == ["M"] for c in r] for r in tb["rows"]]:
+                        fails.append(F("B", "Missing cells of %s differ between route %s and route %s" % (name, a, b), "routes-differ:padded:missing:" + name))
+            tags.append("B:padded-routes-compared")
+        # (B) phase 5: the Results of the three routes are identical also in what `Result.__init__` derives from the tables (learner `full_name`s)
+        cv = logs.get("cache") or {}
+        if all(r in cv for r in ("nofile", "file", "from_file")):
+            names = {r: [(json.dumps(e["id"]), e["full_name"]) for e in cv[r]["lrn"]] for r in cv}
+            for a, b in (("nofile", "file"), ("file", "from_file")):
+                if names[a] != names[b]:
+                    fails.append(F("B", "learner full_names differ: route %s has %s, route %s has %s" % (a, names[a][:4], b, names[b][:4]), "routes-differ:full_name"))
+            tags.append("B:full-names-compared")
         eid, lid, vid = assign_ids(case)
         fail = set(map(tuple, case.get("fail", [])))
         done = [tuple(t) for t in case["triples"] if tuple(t) not in fail]
@@ -1986,6 +2198,9 @@ class C07(Property):
             tags.append("decoy-run-on-same-path")
         if case.get("shuffle") is not None:
             tags.append("log-records-permuted" + (":reversed" if case["shuffle"] == -1 else ""))
+        if case.get("torn"):
+            rec_len, left = shown.pop("_torn_seen", None) or case.pop("_torn_seen", None) or (0, 0)
+            tags.append("torn:gzip-member" if not rec_len else "torn:last-record=%s:left-on-disk=%s" % (">64KiB" if rec_len > 65536 else "<=64KiB", "all-but-newline" if left == rec_len - 1 else (">64KiB" if left > 65536 else "<=64KiB")))
         if case.get("punch"):
             gone = punched_records(case)
             for kk in sorted({g[0] for g in gone}):
@@ -2018,6 +2233,8 @@ class C07(Property):
             for r in rows:
                 for k, v in r[1]:
                     tags.append("key:" + kind_of(k))
+                    if isinstance(k, list) and k[0] == "s" and k[1] in ID_COLS:
+                        tags.append("key:reserved")
                     tags.append("cell:" + kind_of(v))
                     if kind_of(v) == "float":
                         x = float(v[1])
@@ -2091,6 +2308,41 @@ class C07(Property):
                     elif irows != mrows and not (ties and eq_mod_ties(irows, mrows)):
                         fails.append(F("A", "padded rows of %s differ: implementation %s, model %s" % (name, json.dumps(irows)[:300], json.dumps(mrows)[:300]), "A:padded:rows:" + name))
                 tags.append("A:padded-tables-compared")
+            # (A) phase 5: `Result.__init__` — caches = table rows; every learner's full_name = the model's ingredients (`lrnNames` on the model's padded
+            # learners table: which fields, in which order, family default, vw form) rendered with Python's str() of the real cells
+            mnames = ans.get("namesS" if matching and matching[-1].endswith("S") else "names")
+            cfile = (logs.get("cache") or {}).get("file")
+            if cfile is not None and matching:
+                for sfx, text in cfile["problems"][:3]:
+                    fails.append(F("A", text, "A:cache:" + sfx))
+                if isinstance(mnames, list):
+                    if len(mnames) != len(cfile["lrn"]):
+                        fails.append(F("A", "the learner cache has %d entries, the model %d" % (len(cfile["lrn"]), len(mnames)), "A:full_name:count"))
+                    else:
+                        for e, m in zip(cfile["lrn"], mnames):
+                            if m is None:
+                                fails.append(F("A", "model: learner row without learner_id", "A:full_name:no-id")); continue
+                            want = render_full_name(e, m)
+                            if e["full_name"] != want:
+                                fails.append(F("A", "full_name of learner %s is %r, the model's ingredients give %r" % (json.dumps(e["id"]), e["full_name"], want), "A:full_name"))
+                            if m["vw"]:
+                                tags.append("full_name:vw")
+                            elif m["keys"]:
+                                tags.append("full_name:params" + (":some-missing" if e["missing"] else ""))
+                            else:
+                                tags.append("full_name:bare")
+                    tags.append("A:full-names-compared")
+            # (C) phase 5: the log written and read through the (tag -> shape) tables = the model's route (theorem viaTables_eq / log_roundtrip_source at run time)
+            if canon_model_result(ans["viaTables"]) != canon_model_result(ans["tt"]["nofile"]):
+                fails.append(F("C", "model: log through the record-shape tables differs from the model's encoder/reader", "C:viaTables"))
+            # (C) phase 5: on clean runs (`cleanRunB`) the model's padded tables are `specTables`, also when the log is written in reverse
+            # order (theorems tables_spec / tables_order_invariant / tables_punched_log at run time)
+            if ans.get("clean"):
+                tags.append("C:clean-run")
+                if ans["pad"] != ans["specTables"]:
+                    fails.append(F("C", "model tablesOf differs from specTables on a clean run", "C:specTables"))
+                if ans["padRev"] != ans["specTables"]:
+                    fails.append(F("C", "model tablesOf of the reversed log differs from specTables on a clean run", "C:specTables:reversed"))
             # (C) phase 3: the model's tables = `specInteractionsLW` (last record of a triple wins) and `unionParams` (records of an id are merged)
             ttr = combos["tt"]["nofile"]
             if "raised" not in ttr:
